@@ -7,6 +7,34 @@ import (
 	"github.com/IrineSistiana/mosproxy/internal/verifrt"
 )
 
+// vDistinct: the client uses pairwise different transaction IDs for the queries it has in flight.
+func vDistinct(ids []uint16) {
+	for i := range ids {
+		for j := 0; j < i; j++ {
+			verifrt.Assume(ids[i] != ids[j])
+		}
+	}
+}
+
+// vWhichQuery identifies the query a response answers by its transaction ID; a response that carries a question must
+// carry exactly that query's question, and only a REFUSED may come without one.
+func vWhichQuery(b []byte, ids []uint16) int {
+	id := uint16(b[0])<<8 | uint16(b[1])
+	i := -1
+	for j := range ids {
+		if id == ids[j] {
+			i = j
+		}
+	}
+	verifrt.Assert(i >= 0, "every response carries the transaction ID of one of the queries")
+	if len(b) >= 19 && b[5] == 1 {
+		verifrt.Assert(b[12] == 1 && b[13] == byte('a'+i), "a response that has a question has its own query's question")
+	} else {
+		verifrt.Assert(b[3]&0xF == 5, "only a REFUSED may come without the question")
+	}
+	return i
+}
+
 // vCheckFrames: every recorded Write is exactly one frame (prefix = body length); returns bodies.
 func vCheckFrames(writes [][]byte) [][]byte {
 	var bodies [][]byte
@@ -39,6 +67,7 @@ func VerifH_C13_TCPStream() {
 		ids = append(ids, id)
 		stream = append(stream, vFrame(vQueryMsg(id, byte('a'+i), false, 0))...)
 	}
+	vDistinct(ids)
 	done := make(chan struct{})
 	go func() { s.handleConn(c); close(done) }()
 	// arbitrary segmentation: up to 3 cuts anywhere (also inside a length prefix)
@@ -62,15 +91,10 @@ func VerifH_C13_TCPStream() {
 	verifrt.Assert(len(bodies) == k, "every query is answered exactly once (none dropped, none duplicated)")
 	seen := make([]int, k)
 	for _, b := range bodies {
-		id := uint16(b[0])<<8 | uint16(b[1])
-		marker := b[13]
-		i := int(marker - 'a')
-		verifrt.Assert(i >= 0 && i < k, "response question is one of the queries")
+		i := vWhichQuery(b, ids)
 		seen[i]++
-		refused := b[3]&0xF == 5
-		verifrt.Assert(id == ids[i], "ID matches its query")
-		if !refused {
-			vCheckResponse(b, ids[i], marker, true)
+		if b[3]&0xF != 5 {
+			vCheckResponse(b, ids[i], byte('a'+i), true)
 		}
 	}
 	for i := 0; i < k; i++ {
@@ -98,6 +122,7 @@ func VerifH_C13_GnetStream() {
 		ids = append(ids, id)
 		stream = append(stream, vFrame(vQueryMsg(id, byte('a'+i), false, 0))...)
 	}
+	vDistinct(ids)
 	cut1 := verifrt.IntRange("cut1", 0, len(stream))
 	cut2 := len(stream)
 	if verifrt.Thorough() {
@@ -120,12 +145,10 @@ func VerifH_C13_GnetStream() {
 	verifrt.Assert(len(bodies) == k, "every query is answered exactly once")
 	seen := make([]int, k)
 	for _, b := range bodies {
-		marker := b[13]
-		i := int(marker - 'a')
-		verifrt.Assert(i >= 0 && i < k, "response question is one of the queries")
+		i := vWhichQuery(b, ids)
 		seen[i]++
 		if b[3]&0xF != 5 {
-			vCheckResponse(b, ids[i], marker, true)
+			vCheckResponse(b, ids[i], byte('a'+i), true)
 		}
 	}
 	for i := 0; i < k; i++ {
